@@ -266,6 +266,10 @@ def build (kind, rng):
     g = pkt.igmp(ver_and_type=rng.choice([0x11, 0x16, 0x17, 0x12]),
                  max_response_time=rint(rng, 8),
                  address=IPAddr(0xe0000000 | rint(rng, 28)))
+    if rng.random() < 0.5:
+      # what follows the fixed eight octets (an IGMPv3 query's S/QRV, QQIC
+      # and source list live there; the library keeps it in .extra)
+      g.extra = rbytes(rng, rng.choice([1, 4, 5, 12]))
     set_l3(0x0800, ip4(2, g))
   elif kind == "rip":
     from pox.lib.packet.rip import RIPEntry
@@ -399,6 +403,11 @@ def verify_bytes (fire, rep, b, label):
                           zero_as=0xffff):
         fire("%s: UDP checksum invalid" % label, "segment %d bytes (%s)" %
              (len(seg), "odd" if len(seg) & 1 else "even")); return False
+    if ip["proto"] == 2 and ip["frag"] == 0 and len(seg) >= 8:
+      rep.count("igmp_csums")
+      if not field_equals(seg, 2):
+        fire("%s: IGMP checksum invalid" % label, "%d bytes" % len(seg))
+        return False
     if "icmp" in d:
       rep.count("icmp_csums")
       if not field_equals(seg, 2):
